@@ -190,7 +190,7 @@ Fixpoint covered (p : list so_op) : bool :=
   match p with
   | [] => true
   | OEnq _ :: r => has_ens r && covered r
-  | OWork :: _ => true                     (* nothing after a worker loop is ever started *)
+  | OWork :: r => covered r
   | _ :: r => covered r
   end.
 
@@ -205,6 +205,9 @@ Definition will_ensure (t : @thread so_loc so_op) : bool :=
 
 (* observe_on: each notification is one ONote *)
 Definition producer (ids : list nat) : list so_op := map ONote ids.
+
+Definition ids_of (p : list so_op) : list nat :=
+  flat_map (fun o => match o with ONote i | OEnq i => [i] | _ => [] end) p.
 
 (* Observer.on_next/on_error/on_completed drop everything after the first terminal
    notification (is_stopped): [term i] says which identifiers are terminal *)
